@@ -253,7 +253,7 @@ def sources(ctx, navis, rng, tmp):
             nl = navis.NeuronList([F.mk_neuron(F.gen_forest(rng, 2, 8, lattice=True), name='m%d' % j, nid=i_) for j, i_ in enumerate(idl)])
             def geo(n_):      # the tree up to renumbering: every node with its parent's position
                 pos_ = {int(i_): (float(a_), float(b_), float(c_)) for i_, a_, b_, c_ in zip(n_.nodes.node_id.values, n_.nodes.x.values, n_.nodes.y.values, n_.nodes.z.values)}
-                return sorted((pos_[int(i_)], float(r_), pos_.get(int(q_))) for i_, q_, r_ in zip(n_.nodes.node_id.values, n_.nodes.parent_id.values, n_.nodes.radius.values))
+                return sorted((pos_[int(i_)], float(r_), pos_.get(int(q_), (float('inf'),) * 3)) for i_, q_, r_ in zip(n_.nodes.node_id.values, n_.nodes.parent_id.values, n_.nodes.radius.values))
             want_l = {str(n_.id): geo(n_) for n_ in nl}
             for target in (os.path.join(tmp, 'list%d' % ci), os.path.join(tmp, 'list%d.zip' % ci)):
                 if not target.endswith('.zip'):
